@@ -269,3 +269,10 @@ func TestVerif_C15(t *testing.T) {
 	r.Extra("index_load_order_bound", orderBound)
 	r.Count("check_runs_over_index_load_orders", verifC15Orders)
 }
+
+// TestVerifRace_C15 runs every scenario body free (gates answer at once, no oracle) under the race detector.
+func TestVerifRace_C15(t *testing.T) {
+	xplore.Free = 2
+	defer func() { xplore.Free = 0 }()
+	TestVerif_C15(t)
+}
